@@ -71,7 +71,7 @@ THEOREMS = {
             ("unquoted_same", "isLocal_mono", "local_incl", "hostPart_shared", "domain_verdict_shared", "incl_5321_822")],
     "C13": _gt("init_values", "setup_eq", "init_sets_all") + [("Eav.Props.C13", "Eav.Props.C13." + n) for n in
             ("inv_init", "isEmail_outcome", "errstr_latest", "failed_setup_keeps_mode", "inv_setup", "free_releases", "reinit_ok",
-             "inv_settings", "run_inv", "lifecycle_releases")],
+             "inv_settings", "run_inv", "lifecycle_releases", "failed_create_keeps_mode", "failed_create_invisible", "setupFail_eq_setup", "inv_setupFail")],
     "C14": _gt("no_mutable_globals", "externals_mt_safe") + [("Eav.Props.C14", "Eav.Props.C14.sched_indep"), ("Eav.Props.C14", "Eav.Props.C14.shared_is_empty")],
     "C15": _gt("errEnum_eq", "errors_tags", "errors_runtime", "errors_nonempty", "errors_distinct", "setup_eq") +
            [("Eav.Props.C15", "Eav.Props.C15." + n) for n in
